@@ -770,7 +770,7 @@ func writeEvidence(spec *meta.Spec, tier string, base uint64, agg *batchOut, dis
 		"planned_vs_executed": map[string]int{"planned": agg.Planned, "executed": agg.Executed},
 		"components_real":     meta.Real,
 		"components_stub":     spec.Stub,
-		"violation_classes":   classes,
+		"violation_classes":   append([]string{}, classes...),
 	}
 	if spec.Level == "fault_enumeration" {
 		cov["fault_points_enumerated"] = agg.FaultPoints
